@@ -133,7 +133,20 @@ def make(P):
                 _M.append(Models())
             M = _M[0]
             z3 = M.z3
-            py, c = M.pyformat(M.s, spec), M.printf(M.s, flags, width, prec)
+            try:
+                py = M.pyformat(M.s, spec)
+            except HarnessError:
+                # a specifier the model does not cover (e.g. a template left unconverted): no verdict for all indices, but a
+                # concrete disagreement on a sample index is still a genuine violation
+                for n in SAMPLES:
+                    try:
+                        real = cons.get_datum_uri(n)
+                    except Exception as e:  # noqa
+                        real = f"<{type(e).__name__}>"
+                    if real != "file://localhost/data/f_" + c_printf(conv, n) + ".tif":
+                        return f"file-name-differs-from-printf(unmodelled-specifier):{cls}"
+                raise
+            c = M.printf(M.s, flags, width, prec)
             # translator validation: both models against the real str.format and libc on sample indices
             for n in SAMPLES:
                 if M.evaluate(py, n) != spec.format(n):
